@@ -241,11 +241,13 @@ def same(a, b):
     return bool(torch.allclose(a, b, rtol=0, atol=0, equal_nan=True))
 
 
-def shard(spec, depth, T):
+def shard(spec, depth, T, only_cfg=None):
     tally = Tally()
     hist = bool_histories(T)
     apply = getattr(spec, "apply", None)
-    for cfg0 in spec.configs():
+    for ci, cfg0 in enumerate(spec.configs()):
+        if only_cfg is not None and ci != only_cfg:
+            continue
         ops = list(spec.setters(cfg0))
         for d in range(1, depth + 1):
             for seq in itertools.product(ops, repeat=d):
@@ -330,8 +332,8 @@ def specs(tier):
     return out
 
 
-def run_spec(i, depth, T, tier):
-    return shard(specs(tier)[i], depth, T)
+def run_spec(i, depth, T, tier, only_cfg=None):
+    return shard(specs(tier)[i], depth, T, only_cfg)
 
 
 def run(rep):
@@ -339,7 +341,10 @@ def run(rep):
     depth = 2 if quick else 3
     T = 2 if quick else 3
     n = len(specs(rep.tier))
-    jobs = [(run_spec, (i, depth, T, rep.tier)) for i in range(n)]
+    jobs = []
+    for i, sp in enumerate(specs(rep.tier)):
+        for ci, _ in enumerate(sp.configs()):
+            jobs.append((run_spec, (i, depth, T, rep.tier, ci)))
     tally = run_shards(jobs, seed=rep.seed)
     rep.tally.merge(tally)
     c = tally.counts
